@@ -1,12 +1,12 @@
 SPECIFICATION Spec
-CONSTANTS Acct <- AcctU
- KindsOf <- KindsAsset
- BaseSet <- BaseAsset
+CONSTANTS Acct <- AcctCU
+ KindsOf <- KindsCreate
+ BaseSet <- BaseCreate
  MaxSteps = 6
- MaxSnap = 2
- MaxRevs = 99
- MaxOuter = 99
- MaxInner = 99
+ MaxSnap = 1
+ MaxRevs = 1
+ MaxOuter = 1
+ MaxInner = 2
  WithSeal = TRUE
  FreeVals = FALSE
  Dv <- NoDev
